@@ -4,6 +4,8 @@ import (
 	"context"
 	"encoding/json"
 	"fmt"
+	"github.com/bloxapp/ssv/network/peers"
+	"github.com/ethereum/go-ethereum/p2p/enr"
 	"os"
 	"runtime"
 	"sort"
@@ -554,6 +556,61 @@ func runDec(p DecProg) *prog.Result {
 		case "subnets":
 			_, err := records.Subnets{}.FromString(string(p.Data))
 			decodedOK = err == nil
+		case "handshake-subnets":
+			// the subnets string of a peer's handshake payload (NodeInfo.Metadata.Subnets), decoded and then put through
+			// what the connection layer does with a peer's vector (handshaker.updateNodeSubnets -> subnets index;
+			// connHandler.sharesEnoughSubnets; conn manager scoring), this node being subscribed to all / some subnets
+			theirs, err := records.Subnets{}.FromString(string(p.Data))
+			if err != nil {
+				return
+			}
+			decodedOK = true
+			for _, mineStr := range []string{records.AllSubnets, "00000000000000000000000000000001", "80000000000000000000000000000000"} {
+				mine, _ := records.Subnets{}.FromString(mineStr)
+				_ = records.SharedSubnets(mine, theirs, 1)
+				_ = records.SharedSubnets(theirs, mine, len(mine))
+				_ = records.SharedSubnets(mine, theirs, 0)
+				_ = records.DiffSubnets(mine, theirs)
+				_ = records.DiffSubnets(theirs, mine)
+			}
+			_ = theirs.String()
+			_ = theirs.Active()
+			_ = theirs.Clone()
+			idx := peers.NewSubnetsIndex(commons.Subnets())
+			idx.UpdatePeerSubnets("peer-a", theirs)
+			_ = idx.GetPeerSubnets("peer-a")
+			_ = idx.GetSubnetsStats()
+			idx.UpdatePeerSubnets("peer-a", records.Subnets{})
+		case "enr-entries":
+			// a remote node's ENR (the remote chooses the entries; discovery's checkPeer reads them): first byte = length of the
+			// "domaintype" entry (>= 0x80: entry absent), second byte = length of the "subnets" entry (>= 0x80: absent)
+			var rec enr.Record
+			d := p.Data
+			take := func() ([]byte, bool) {
+				if len(d) == 0 || d[0] >= 0x80 {
+					if len(d) > 0 {
+						d = d[1:]
+					}
+					return nil, false
+				}
+				n := int(d[0]) % 40
+				d = d[1:]
+				if n > len(d) {
+					n = len(d)
+				}
+				v := d[:n]
+				d = d[n:]
+				return v, true
+			}
+			if v, ok := take(); ok {
+				rec.Set(enr.WithEntry("domaintype", v))
+			}
+			if v, ok := take(); ok {
+				rec.Set(enr.WithEntry("subnets", v))
+			}
+			_, err1 := records.GetDomainTypeEntry(&rec)
+			_, err2 := records.GetSubnetsEntry(&rec)
+			decodedOK = err1 == nil && err2 == nil
 		default:
 			panic("unknown target " + p.Target)
 		}
@@ -568,7 +625,7 @@ func runDec(p DecProg) *prog.Result {
 }
 
 var decTargets = []string{"signed-envelope", "network-msg", "ssv-consensus", "ssv-partial", "ssv-event", "node-info-record", "signed-node-info-record",
-	"node-info-consume", "signed-node-info-consume", "node-info-sealed", "signed-node-info-sealed", "subnets"}
+	"node-info-consume", "signed-node-info-consume", "node-info-sealed", "signed-node-info-sealed", "subnets", "handshake-subnets", "enr-entries"}
 
 func genEntries(t *rapid.T) []byte {
 	n := rapid.IntRange(0, 8).Draw(t, "nentries")
@@ -598,8 +655,14 @@ func genDec(t *rapid.T) DecProg {
 		if m, err := commons.DecodeNetworkMsg(data); err == nil {
 			p.Data = m.Data
 		}
-	case structured && p.Target == "subnets":
+	case structured && (p.Target == "subnets" || p.Target == "handshake-subnets"):
 		p.Data = []byte(rapid.StringMatching(`(0x)?[0-9a-fA-Fg]{0,40}`).Draw(t, "hex"))
+	case structured && p.Target == "enr-entries":
+		dl := rapid.SampledFrom([]int{0, 1, 3, 4, 4, 5, 8, 0x80}).Draw(t, "dtlen")
+		sl := rapid.SampledFrom([]int{0, 1, 15, 16, 16, 17, 32, 0x80}).Draw(t, "snlen")
+		p.Data = append([]byte{byte(dl)}, rapid.SliceOfN(rapid.Byte(), dl%0x80, dl%0x80).Draw(t, "dt")...)
+		p.Data = append(p.Data, byte(sl))
+		p.Data = append(p.Data, rapid.SliceOfN(rapid.Byte(), sl%0x80, sl%0x80).Draw(t, "sn")...)
 	case rapid.IntRange(0, 2).Draw(t, "bl") == 0:
 		n := boundaryLen(t)
 		if n < 0 {
